@@ -11,13 +11,15 @@ EXTRA_COQ_DIRS = ["C08"]
 # Flocq's binary32/binary64 formats are defined over Coq's axiomatic reals (only the f/d theorems depend on them)
 ALLOWED_AXIOMS = [r"ClassicalDedekindReals\.sig_not_dec$", r"ClassicalDedekindReals\.sig_forall_dec$",
                   r"FunctionalExtensionality\.functional_extensionality_dep$", r"Classical_Prop\.classic$"]
-RULE = ("chunks: size 1..9 x length 0..20 x format b h i f d x byte order None/</> x both strategies, sample values "
+RULE = ("chunks: size 1..9 x length 0..20 x format b h i f d x byte order None/</>/!/=/@ x both strategies, sample values "
         "include the extremes of each width and non-representable doubles for 'f'; non-trivial = at least one full "
         "chunk and a padded tail; wav: every width x mono/stereo x keep, samples include the extremes; files written "
         "with the standard wave module from bytes built by int.to_bytes; non-trivial = >= 3 samples incl. a negative "
         "(or > 127 for 8 bit) one")
 EXHAUSTIVE = {"quick": False, "thorough": False}
-trusted_base = ["native byte order of the machine running the check is little-endian (checked at run time)",
+trusted_base = ["native byte order of the machine running the check is little-endian (checked at run time); the struct marks "
+                "'!' / '=' / '@' are mapped to the model's Big / Little / Native (struct documents '!' = big-endian, '=' = native "
+                "order with standard sizes, '@' = native mode)",
                 "struct.pack / array / wave module of CPython are the reference for the byte formats",
                 "Flocq 'binary_normalize' with mode_NE models the double->single conversion of struct 'f'"]
 ASSUMPTIONS = ["WAV files contain whole frames only"]
@@ -44,6 +46,10 @@ def gen_chunks(tier, rng):
   combos = list(itertools.product(sizes, lens, "bhifd", [None, "<", ">"]))
   if tier == "quick":
     combos = [c for i, c in enumerate(combos) if (i * 7919) % 4 == 0]
+  # the other struct byte-order marks: "!" (network = big-endian), "=" (native order, standard sizes: on this
+  # little-endian host the same bytes and the same strictness as "<"), "@" (native mode, the same as None)
+  extra = list(itertools.product(sizes, lens, "bhifd", ["!", "=", "@"]))
+  combos += [c for i, c in enumerate(extra) if tier != "quick" or (i * 7919) % 8 == 0]
   for size, n, fmt, bo in combos:
     if fmt in "bhi":
       xs = ints_for(fmt, n, rng); pad = rng.choice([0, 0, -1, 5])
@@ -64,7 +70,7 @@ def gen_chunks(tier, rng):
       xs = [dbits(rng.choice([1.0, 1e39, -1e39, 3.5e38, 3.4028235677973366e+38, 0.5])) for _ in range(n)]; pad = dbits(0.0)
     else:
       xs = [rng.choice([0, 1, 1 << (8 * FMTW[fmt] - 1), -(1 << (8 * FMTW[fmt] - 1)) - 1]) for _ in range(n)]; pad = 0
-    yield {"size": size, "fmt": fmt, "order": rng.choice([None, "<", ">"]), "pad": pad, "xs": xs, "tags": ["malformed"]}
+    yield {"size": size, "fmt": fmt, "order": rng.choice([None, "<", ">", "!", "=", "@"]), "pad": pad, "xs": xs, "tags": ["malformed"]}
 
 
 def _val(fmt, v):
@@ -98,7 +104,7 @@ def _zl(l):
 def lit_chunks(c, o):
   def co(r):
     return "(CO %s %s)" % (L.lst([_zl(ch) for ch in r["chunks"]]), L.boolean(r["raised"] is not None))
-  order = {None: "Native", "<": "Little", ">": "Big"}[c["order"]]
+  order = {None: "Native", "@": "Native", "<": "Little", "=": "Little", ">": "Big", "!": "Big"}[c["order"]]
   return "(CC %s F%s %s %s %s %s %s)" % (L.nat(c["size"]), c["fmt"], order, L.z(c["pad"]),
                                           L.lst([L.z(v) for v in c["xs"]]), co(o["struct"]), co(o["array"]))
 
